@@ -255,8 +255,17 @@ def viaDispatch (C : FCtx K) (x : PObj K) (f : String) (inputs : List (Ufunc.Ope
 def follow (C : FCtx K) (op : FollowOp K) (x : PObj K) : Except Err (Res K) :=
   match op with
   | .unary f =>
+    -- `inp.in_units("radian")` for a trigonometric function of an angle: the dispatcher model records
+    -- that (and by which factor) the operand is converted; the numbers also take the offset (lat, lon)
+    let toRad : K → K :=
+      match Ufunc.tableUnit x.reg.rows.lut "rad" with
+      | none => fun v => v
+      | some rad =>
+        match getConversionFactor C.pre x.reg.rows.lut x.unit rad with
+        | .ok fo => applyFactor fo
+        | .error _ => fun v => v
     viaDispatch C x f [x.operand] fun o v =>
-      C.kern f (match o.factor with | some k => v * k | none => v) * o.mul
+      C.kern f (match o.factor with | some _ => toRad v | none => v) * o.mul
   | .binaryQ f e v =>
     match unitFromReg C.pre x.reg e with
     | .error err => .error err
